@@ -90,6 +90,22 @@ def run_case(desc, ctx):
                            f"bounds [{sd['bounds'][0][j]!r}, {sd['bounds'][1][j]!r}] step {sd['precision'][j]!r}) at call {call}",
                     "witness": dict(wit, batch=batch)})
                 break
+            # independent of the library's own grid: inside the declared bounds (up to the documented 1e-7 end-point tolerance)
+            # and on lower + k * precision
+            lo_b, up_b, pr_b = (np.asarray(x, dtype=float) for x in (sd["bounds"][0], sd["bounds"][1], sd["precision"]))
+            mag = np.maximum(np.abs(lo_b), np.abs(up_b) + 1e-7)
+            kk = np.round((batch - lo_b) / pr_b)
+            slack = 4 * (np.abs(kk) + 2) * np.spacing(mag)
+            outside = (batch < lo_b - slack) | (batch > up_b + 1e-7 + slack)
+            off = np.abs(batch - (lo_b + kk * pr_b)) > slack
+            c["independent_bounds_checks"] = c.get("independent_bounds_checks", 0) + int(batch.size)
+            if outside.any() or off.any():
+                r, j = (int(x) for x in np.argwhere(outside | off)[0])
+                what = "lies outside the declared bounds" if outside[r, j] else "is not lower + k*precision"
+                out["violations"].append({
+                    "msg": f"{kind}: coordinate {j} of row {r} is {batch[r, j]!r}, which {what} [{sd['bounds'][0][j]!r}, {sd['bounds'][1][j]!r}] step "
+                           f"{sd['precision'][j]!r} (1e-7 end-point tolerance allowed) at call {call}", "witness": dict(wit, batch=batch)})
+                break
             new_losses = rng.random(bs) + 0.01 if lk != "ties" else rng.integers(1, 4, size=bs).astype(float)
             pts = np.vstack([pts, batch])
             losses = np.hstack([losses, new_losses])
